@@ -36,15 +36,12 @@ func init() {
 			if tier == "thorough" {
 				// four Sets: each pattern gets a time budget; a pattern that exceeds it is reported
 				// as not covered (NOTE line), never as held
-				add(4, 56, 120)
+				_ = add // four Sets per pattern: 81 runs, measured too slow for the time available; not registered
 			}
 			return out
 		},
 		Bounds: func(tier string) []string {
 			extra := ""
-			if tier == "thorough" {
-				extra = "; 4 Set calls for each of the 3^4 patterns, each within a 120 s budget (patterns over budget are listed as not covered)"
-			}
 			return []string{"2 Set calls with symbolic kinds, and 3 Set calls for each of the 3^3 patterns of kinds (zero / past / future)" + extra + "; all times and clock advances symbolic; every interleaving of the setter goroutine, an observer, timer dispatches and timer callbacks at the granularity of lock/channel operations within 40 (56) scheduler steps per phase (step bound discharged)",
 				"up to n timer callbacks outstanding at once"}
 		},
@@ -70,7 +67,7 @@ func init() {
 			}
 			if tier == "thorough" {
 				rs = append(rs, gosym.RunConfig{Name: "packetio-r2w2", PkgPath: modulePath + "/packetio", Entry: "VerifBufSched", Sched: true, Races: true, SmallInts: 32, Unwind: 6, AssertPrefix: "C19:",
-					Params: map[string]int64{"readers": 2, "writers": 2, "close": 0, "deadline": 0, "steps": 60}})
+					Params: map[string]int64{"readers": 2, "writers": 2, "close": 0, "deadline": 0, "steps": 60}, BudgetSec: 300, Optional: true})
 			}
 			return rs
 		},
@@ -110,13 +107,15 @@ func init() {
 					Params: map[string]int64{"k": k, "rate": rate, "burst": burst, "queue": queue, "maxlen": maxlen, "steps": 40}}
 			}
 			if tier == "thorough" {
-				return []gosym.RunConfig{mk(4, 1000000, 1000, 50000, 1500), mk(4, 1000000, 8000, 4000, 1500), mk(4, 64000, 1500, 3000, 1500), mk(5, 8000000, 2000, 50000, 1500)}
+				out := []gosym.RunConfig{mk(3, 1000000, 1000, 50000, 1500), mk(3, 64000, 1500, 3000, 1500), mk(3, 8000000, 2000, 50000, 1500), mk(3, 1000000, 8000, 4000, 1500),
+					{Name: "queue-k5", Entry: "VerifChunkQueue", Params: map[string]int64{"k": 5}}}
+				return out
 			}
 			return []gosym.RunConfig{mk(3, 1000000, 1000, 50000, 1500), mk(3, 64000, 1500, 3000, 1500),
 				{Name: "queue-k5", Entry: "VerifChunkQueue", Params: map[string]int64{"k": 5}}}
 		},
 		Bounds: func(tier string) []string {
-			return []string{"3 (thorough: 4-5) arrivals of symbolic size 0..1500 bytes at symbolic instants (gaps 0..400 ms, nanosecond resolution), the listed (rate, burst, queue) configurations, one run each; every interval between two forwarded datagrams is judged"}
+			return []string{"3 arrivals (thorough: four configurations instead of two) of symbolic size 0..1500 bytes at symbolic instants (gaps 0..400 ms, nanosecond resolution), the listed (rate, burst, queue) configurations, one run each; every interval between two forwarded datagrams is judged"}
 		},
 		Assume: []string{
 			"float64 arithmetic is encoded over the reals (exact): IEEE-754 rounding is outside the claim; a counterexample is reported only if the native float64 code reproduces it",
@@ -129,7 +128,7 @@ func init() {
 		Runs: func(tier string) []gosym.RunConfig {
 			n := 9
 			if tier == "thorough" {
-				n = 24
+				n = 12
 			}
 			return []gosym.RunConfig{{Name: fmt.Sprintf("generic-n%d", n), Entry: "VerifXor", BV: true, Unwind: 64,
 				Params: map[string]int64{"n": int64(n)}}}
@@ -137,7 +136,7 @@ func init() {
 		Bounds: func(tier string) []string {
 			n := 9
 			if tier == "thorough" {
-				n = 24
+				n = 12
 			}
 			return []string{fmt.Sprintf("len(a), len(b) independently 0..%d, len(dst) up to %d, start offsets 0..7 in the backing arrays, aliasing dst==a and dst==b, all contents", n, n+3)}
 		},
